@@ -30,8 +30,9 @@ results=""
 if [ "$confirmed" = yes ]; then
   tools/alt_sync.sh "${EVD:-/tmp/ev}" || exit 2
   git -C ${EVD:-/tmp/ev}/repo checkout -q -- . ; git -C ${EVD:-/tmp/ev}/repo clean -fdq
-  git -C ${EVD:-/tmp/ev}/repo apply "/verif/$DEST/patch.diff" || { echo "cannot apply to scratch repo"; exit 2; }
-  for chk in "$ID" "$@"; do
+  applied=yes
+  git -C ${EVD:-/tmp/ev}/repo apply "/verif/$DEST/patch.diff" || { echo "cannot apply to scratch repo (needs re-basing onto the current HEAD)"; applied=no; }
+  [ "$applied" = yes ] && for chk in "$ID" "$@"; do
     out="$(cd ${EVD:-/tmp/ev}/verif && VERIF_HANG_S=40 VERIF_REPO=${EVD:-/tmp/ev}/repo ./run.sh "$chk" quick 2>/dev/null)"; rc=$?
     if [ $rc -eq 1 ] && echo "$out" | grep -q "^VIOLATION property=$chk "; then r=detected; elif [ $rc -eq 0 ]; then r=missed; else r="error(rc=$rc)"; fi
     results="$results $chk=$r"
